@@ -421,8 +421,30 @@ def setNth {α : Type} : List α → Nat → α → List α
   | _ :: xs, 0, a => a :: xs
   | x :: xs, n + 1, a => x :: setNth xs n a
 
-mutual
-/-- `Decoder.unmarshal(val, start)` on an element given as attributes and content -/
+/-- which field of a struct a child element / an attribute named `name` goes to -/
+def fieldFor (dfs : List LtField) (isAttr : Bool) (name : String) : Option (LtField × Nat) :=
+  (dfs.zipIdx).find? (fun (f, _) => f.attr == isAttr && f.xmlName == name)
+
+/-- one child of a struct element: a child element whose name is a field's goes into that field
+    (starting from what the field already holds, decoded by `g`), text and unknown elements are
+    skipped -/
+def kidStep (g : LtType → V → List (String × List Char) → List Xml.Node → Outcome V) (dfs : List LtField)
+    (fs : List V) (kid : Xml.Node) : Outcome (List V) :=
+  match kid with
+  | .text _ => .ok fs
+  | .elem name as sub =>
+    match fieldFor dfs false name with
+    | some (f, i) => (g f.typ (fs.getD i .nil) as sub).map fun v => setNth fs i v
+    | none => .ok fs
+
+/-- one attribute of a struct element -/
+def attrStep (s : Schema) (dfs : List LtField) (fs : List V) (a : String × List Char) : Outcome (List V) :=
+  match fieldFor dfs true a.1 with
+  | some (f, i) => (copyValue (kindOf s 8 f.typ) a.2).map fun v => setNth fs i v
+  | none => .ok fs
+
+/-- `Decoder.unmarshal(val, start)` on an element given as attributes and content.  The fuel
+    bounds the nesting depth only. -/
 def unmarshalNode (s : Schema) : Nat → LtType → V → List (String × List Char) → List Xml.Node → Outcome V
   | 0, _, _, _, _ => .unmodelled
   | fuel + 1, ty, cur, attrs, kids =>
@@ -444,32 +466,12 @@ def unmarshalNode (s : Schema) : Nat → LtType → V → List (String × List C
           match s.fieldsOf n, cur with
           | some fields, .struct fs0 =>
             let dfs := dataFields fields
-            -- attributes
-            let withAttrs : Outcome (List V) := attrs.foldlM (fun (fs : List V) (a : String × List Char) =>
-              match (dfs.zipIdx).find? (fun (f, _) => f.attr && f.xmlName == a.1) with
-              | some (f, i) => (copyValue (kindOf s 8 f.typ) a.2).map fun v => setNth fs i v
-              | none => Outcome.ok fs) fs0
-            withAttrs.bind fun fs1 => (structKids s fuel dfs fs1 kids).map V.struct
+            -- attributes, then the children in document order
+            (attrs.foldlM (attrStep s dfs) fs0).bind fun fs1 =>
+              (kids.foldlM (kidStep (unmarshalNode s fuel) dfs) fs1).map V.struct
           | _, _ => .unmodelled
         | .int | .float | .bool | .string => copyValue k (Xml.textOf kids)
         | _ => .unmodelled
-
-/-- the children of a struct element, in document order: a child element whose name is a field's
-    goes into that field (starting from what the field already holds), anything else is skipped -/
-def structKids (s : Schema) : Nat → List LtField → List V → List Xml.Node → Outcome (List V)
-  | _, _, fs, [] => .ok fs
-  | 0, _, _, _ :: _ => .unmodelled
-  | fuel + 1, dfs, fs, .text _ :: r => structKids s fuel dfs fs r
-  | fuel + 1, dfs, fs, .elem name as kids :: r =>
-    match (dfs.zipIdx).find? (fun (f, _) => !f.attr && f.xmlName == name) with
-    | some (f, i) =>
-      match unmarshalNode s fuel f.typ (fs.getD i .nil) as kids with
-      | .ok v => structKids s fuel dfs (setNth fs i v) r
-      | .err e => .err e
-      | .panic p => .panic p
-      | .unmodelled => .unmodelled
-    | none => structKids s fuel dfs fs r
-end
 
 /-! ### Whole document -/
 
@@ -573,6 +575,6 @@ def decodeDoc (s : Schema) (cp1252 : List Nat) (bytes : List UInt8) : Outcome V 
             match Xml.parseNodes (rest.length + 2) rest with
             | .bad u => badOutcome u
             | .ok kids _ =>
-              unmarshalNode s (rest.length + 64) (.named "DB") (zeroOf s 8 (.named "DB")) attrs kids
+              unmarshalNode s 64 (.named "DB") (zeroOf s 8 (.named "DB")) attrs kids
 
 end TrackVerif.LT
